@@ -19,6 +19,16 @@ def main():
         args = [a for a in args if a != tier]
     patch, ids = os.path.abspath(args[0]), args[1:]
     d = tempfile.mkdtemp(prefix="mutrepo_", dir="/var/tmp")
+    # evidence written by runs against a scratch copy must never stay in /verif/evidence: keep the current files aside
+    keep = tempfile.mkdtemp(prefix="mutevid_", dir="/var/tmp")
+    ev = os.path.join(VERIF, "evidence")
+    before = set()
+    for root, _, fs in os.walk(ev):
+        for f in fs:
+            rel = os.path.relpath(os.path.join(root, f), ev)
+            before.add(rel)
+            os.makedirs(os.path.dirname(os.path.join(keep, rel)), exist_ok=True)
+            shutil.copy2(os.path.join(root, f), os.path.join(keep, rel))
     try:
         subprocess.run(f"git -C /repo archive HEAD | tar -x -C {d}", shell=True, check=True)
         r = subprocess.run(["patch", "-p1", "-d", d, "-i", patch], capture_output=True, text=True)
@@ -34,12 +44,22 @@ def main():
                 print("   ", l)
     finally:
         shutil.rmtree(d, ignore_errors=True)
+        for root, _, fs in os.walk(ev):
+            for f in fs:
+                rel = os.path.relpath(os.path.join(root, f), ev)
+                if rel not in before:
+                    os.remove(os.path.join(root, f))
+        for rel in before:
+            os.makedirs(os.path.dirname(os.path.join(ev, rel)), exist_ok=True)
+            shutil.copy2(os.path.join(keep, rel), os.path.join(ev, rel))
+        shutil.rmtree(keep, ignore_errors=True)
         # restore the generated tables and evidence from /repo itself
         subprocess.run([sys.executable, os.path.join(VERIF, "gen", "scan_sites.py")], capture_output=True)
         subprocess.run([sys.executable, os.path.join(VERIF, "gen", "ast2coq.py")], capture_output=True)
         subprocess.run([sys.executable, os.path.join(VERIF, "gen", "symkern.py")], capture_output=True)
         subprocess.run([sys.executable, os.path.join(VERIF, "gen", "symops.py")], capture_output=True)
         subprocess.run([sys.executable, os.path.join(VERIF, "gen", "symops2.py")], capture_output=True)
+        subprocess.run([sys.executable, os.path.join(VERIF, "gen", "symround.py")], capture_output=True)
     return 0
 
 
